@@ -6,12 +6,14 @@ import json
 import re
 from vlib import Hit, Result, diff_lines, sh
 from props.c13_rejoin import run_rejoin_trace, N as N_RJT
+from props.c13_huse import run_huse, N as N_HUSE
 
 ASSUMPTIONS = [
     'suspend/resume follow the agent contract of Base/Agent.v (a resume aimed at a running task leaves a token consumed by the next suspension of that phase; any spurious return of a suspension is allowed)',
     'one critical section of the per-thread_data spinlock / of thread::mtx_ is one atomic step; exit_funcs_.front() read outside the lock is an atomic read of the list head; sequentially consistent interleaving',
     'a pika::thread object is operated by one task at a time (handles are owned); concurrent join() on the same object is outside the model',
     'thread_interrupted either ends the thread function or is caught by a handler after which the program continues (ACatch); restart state `abort` and yield_aborted are not modelled',
+    'handle lock (Model/JoinLock.v): one critical section of thread::mtx_ is one step; swap/move are modelled as two observer sections of the one handle (the second handle of a swap is a fresh local object); every interruptible wait of the target (semaphore, cv, mutex, poll) is modelled as a wait that only an interruption ends; whether join() releases mtx_ before its wait loop is read from thread.cpp by tools/genmods/c13.py',
     'the completion flag of a join() call is identified by (joiner, target, number of the registration); shared_ptr / thread_id_ref lifetimes are not modelled (read: the callback owns a copy of both)',
 ]
 
@@ -259,7 +261,11 @@ def run(ctx):
               'into an empty jthread, vector push_back + reallocation, swap with an empty / with another running jthread, return by value, '
               'ctor->heap->assign chain) immediately after construction or after the function started; the final owner is destroyed; monitors: '
               'token stop_possible at the first statement, stop seen, destructor returns (10 s watchdog) after the function finished, no stop before the '
-              'owner dies, handle state after the move = sequential spec. non-trivial = callback accepted (join had to wait) or any seq/jthr/intr case; distinct = distinct (mode,seed,case,events)')
+              'owner dies, handle state after the move = sequential spec. huse (harness/c13_huse.cpp, 4 and 1 workers): a target blocked for ever (semaphore / cv / held pika::mutex / '
+              'flag poll), a joiner task suspended (or held at hook 1302, about to suspend) inside t.join(), a third pika task or OS thread calls joinable / get_id / '
+              'native_handle / interruption_requested / swap / move / detach in a seeded order and finally interrupt() on the SAME handle: every call returns (15 s), the '
+              'results follow the sequential spec of a handle being joined, the interrupt ends the target with thread_interrupted, join returns, handle not joinable; '
+              'the same cases run on the extracted layered model (Model/JoinLock.v) whose outcome must agree and which must not end with a thread waiting for a handle lock. non-trivial = callback accepted (join had to wait) or any seq/jthr/intr case; distinct = distinct (mode,seed,case,events)')
     ctx.build_pika()
     drv = ctx.build_model('C13', 'ExtractC13.v', 'drv_c13.ml')
     h = ctx.build_harness('c13_join', 'c13_join.cpp')
@@ -267,6 +273,10 @@ def run(ctx):
     if ctx.replay:
         try:
             rp = json.load(open(ctx.replay)).get('replay', {})
+            if rp.get('harness') == 'c13_huse':
+                a = rp.get('args', [4, ctx.seed, 100])
+                run_huse(ctx, r, drv, int(a[0]), int(a[1]), int(a[2]), 300, only=(int(a[3]) if len(a) > 3 else None))
+                return r
             if rp.get('harness') == 'c13_jmove':
                 a = rp.get('args', [4, ctx.seed, 100])
                 run_jmove(ctx, r, hjm, int(a[0]), int(a[1]), int(a[2]), 300, only=(int(a[3]) if len(a) > 3 else None))
@@ -290,6 +300,12 @@ def run(ctx):
         for workers in (1, 4):
             run_jmove(ctx, r, hjm, workers, sd, n['jmove'], to)
         run_rejoin_trace(ctx, r, drv, sd, N_RJT[ctx.tier], to)    # acceptor for the re-join traces (props/c13_rejoin.py)
+        # the handle used by a third task / OS thread while a join is in progress (props/c13_huse.py); a stuck case costs its
+        # watchdog bound and cannot be cleaned up: the second configuration is skipped then
+        stuck = False
+        for workers in (4, 1):
+            if not stuck:
+                stuck = run_huse(ctx, r, drv, workers, sd, N_HUSE[ctx.tier], to)
     run_mode(ctx, r, h, drv, 'intry', ctx.seed, 1, 60)
     r.notes.append('E4 (run_thread_exit_callbacks popped the front after invoking it unlocked: a callback pushed meanwhile was dropped and the '
                    'invoked one ran twice) is repaired (callback moved out of the list under the lock); reachable through the public API by a joiner that '
